@@ -239,6 +239,34 @@ else `CannotResolveMember`. -/
 def memberAccessResolved (cx : Ctx) (c : ClassRef) (methods fields : List (Nat × Bool)) (name : Nat) : Bool :=
   memberResolved cx c methods name || fieldResolved cx c fields name
 
+/-! ## Kind gates: what may be called, accessed, extended, declared -/
+
+/-- callee of a call (main_checker.rs:741-751): a function type, or `any` (already reported);
+anything else is `IncompatibleTypeKind`. `true` = no diagnostic. -/
+def calleeOk : Ty → Bool
+  | .fn _ _ => true
+  | .any _ => true
+  | _ => false
+
+/-- object of a member access `e.name` (main_checker.rs:385-395 with `nominal_type_upper_bound`,
+typing_context.rs:136-143): a nominal type, a type parameter with a bound, or `any`. -/
+def memberObjectOk (boundedGenerics : List Nat) : Ty → Bool
+  | .nominal _ _ _ _ => true
+  | .generic n => boundedGenerics.contains n
+  | .any _ => true
+  | _ => false
+
+/-- explicit type arguments on a *field* access (main_checker.rs:500-505): none allowed. -/
+def fieldTyArgsOk (given : Option Nat) : Bool := given.isNone
+
+/-- a resolved super type must be an interface (main_checker.rs:1716-1731); table as `KindTable`. -/
+def superKindsOk (tab : KindTable) (known : List (Nat × Nat)) (supers : List (Nat × Nat)) : Bool :=
+  supers.all fun k => !(known.contains k) || isInterface tab k.1 k.2
+
+/-- members of an interface must be methods (main_checker.rs:1778-1782). `true` = is a method. -/
+def interfaceMembersOk (isClass : Bool) (members : List Bool) : Bool :=
+  isClass || members.all id
+
 /-! ## Transitive super types with cycle detection -/
 
 structure Decl where
